@@ -11,7 +11,8 @@ CONSTANTS W_ADR, W_LEN, W_MAC, BLK, Base, Huge,
           Enc(_, _), Dec(_, _),          \* (key, BLK-aligned cells) -> cells
           ENC_TAG, ENC_SESSION,          \* tag id and value cell sequence selecting session-key encryption
           SHORT_READ_OK,                 \* switch: reads past the end return short data (code before fix #3)
-          ENC_NEVER_DECRYPTS             \* switch: reader never decrypts (code before fix #2)
+          ENC_NEVER_DECRYPTS,            \* switch: reader never decrypts (code before fix #2)
+          KeyA, KeyB, GarbageCell        \* two distinct session keys and a cell no MAC produces (lenient serialiser, C05)
 
 Min(a, b) == IF a < b THEN a ELSE b
 Mat(f, n) == SubSeq(f, 1, n)             \* materialise a function constructor as a tuple (TLC: strict)
@@ -58,6 +59,61 @@ DirSize(comps) == W_LEN + DirLenFrom(comps, 1) + 1
 Serialize(comps, off, key) ==
     LET dir == EntriesFrom(comps, 1, off + DirSize(comps), key) \o <<ZeroCell>>
     IN  BE(Len(dir), W_LEN) \o dir \o PayloadsFrom(comps, 1, key)
+
+\* ---------------------------------------------------------------- lenient serialiser (C05)
+\* Writes a file from a descriptor whose fields may be inconsistent; MACs are computed over the bytes actually
+\* written, so only the structural rule under test is broken.  Entry descriptor e:
+\*   [c, lenD, adrD, totD, declared, dlenD, dup, tlenD, emac, pmac]   (D = delta to the consistent value)
+\*   emac \in {"valid","idx-1","idx+1","otherkey","garbage"}   pmac \in {"valid","otherkey","garbage"}
+\* File descriptor d: [ents, dirD, sentinel \in {"present","absent","nonzero"}, trailing (cells), swap (BOOLEAN)]
+Nat0(x) == IF x < 0 THEN 0 ELSE x
+OtherKey(key) == IF key = KeyA THEN KeyB ELSE KeyA
+Garbage(w) == Mat([j \in 1..w |-> GarbageCell], w)
+RawTlvs(e) ==
+    LET t0 == Tlvs(e.c.desc)
+        t1 == IF e.dup /\ Len(e.c.desc) > 0 THEN t0 \o <<Cell(e.c.desc[1][1]), Cell(0)>> ELSE t0     \* first tag repeated (empty value)
+    IN  IF e.tlenD # 0 /\ Len(e.c.desc) > 0
+        THEN LET k == Len(e.c.desc)  lastpos == Len(Tlvs(SubSeq(e.c.desc, 1, k - 1))) + 2      \* position of the last tag's length cell
+             IN [t1 EXCEPT ![lastpos] = Cell(Nat0(Len(e.c.desc[k][2]) + e.tlenD))]
+        ELSE t1
+RawEntry(e, i, adr, key) ==
+    LET raw  == Raw(e.c, key)
+        t    == RawTlvs(e)
+        pm   == IF e.pmac = "valid" THEN Mac(key, 0, raw) ELSE IF e.pmac = "otherkey" THEN Mac(OtherKey(key), 0, raw) ELSE Garbage(W_MAC)
+        body == BE(Nat0(adr + e.adrD), W_ADR) \o BE(Nat0(Len(raw) + e.totD), W_LEN) \o BE(e.declared, W_LEN) \o pm
+                \o <<Cell(Nat0(Len(t) + e.dlenD))>> \o t
+        em   == IF e.emac = "valid" THEN Mac(key, i, body) ELSE IF e.emac = "idx-1" THEN Mac(key, i - 1, body)
+                ELSE IF e.emac = "idx+1" THEN Mac(key, i + 1, body) ELSE IF e.emac = "otherkey" THEN Mac(OtherKey(key), i, body)
+                ELSE Garbage(W_MAC)
+    IN  <<Cell(Nat0(Len(body) + W_MAC + e.lenD))>> \o body \o em
+RawEntryLen(e) == 1 + W_ADR + 2 * W_LEN + W_MAC + 1 + Len(RawTlvs(e)) + W_MAC
+RECURSIVE RawDirLen(_, _)
+RawDirLen(ents, i) == IF i > Len(ents) THEN 0 ELSE RawEntryLen(ents[i]) + RawDirLen(ents, i + 1)
+RECURSIVE RawEntries(_, _, _, _, _)
+RawEntries(ents, order, i, adrs, key) ==      \* order[i] = which descriptor is written at directory position i
+    IF i > Len(ents) THEN <<>>
+    ELSE RawEntry(ents[order[i]], i, adrs[order[i]], key) \o RawEntries(ents, order, i + 1, adrs, key)
+RECURSIVE RawPayloads(_, _, _)
+RawPayloads(ents, i, key) == IF i > Len(ents) THEN <<>> ELSE Raw(ents[i].c, key) \o RawPayloads(ents, i + 1, key)
+SerializeRaw(d, off, key) ==
+    LET n     == Len(d.ents)
+        sent  == IF d.sentinel = "present" THEN <<ZeroCell>> ELSE IF d.sentinel = "absent" THEN <<>> ELSE <<Cell(1)>>
+        dsize == W_LEN + RawDirLen(d.ents, 1) + Len(sent)
+        RECURSIVE AdrOf(_)
+        AdrOf(j) == IF j = 1 THEN off + dsize ELSE AdrOf(j - 1) + Len(Raw(d.ents[j - 1].c, key))
+        adrs  == Mat([j \in 1..n |-> AdrOf(j)], n)
+        order == IF d.swap /\ n = 2 THEN <<2, 1>> ELSE Mat([j \in 1..n |-> j], n)
+        dir   == RawEntries(d.ents, order, 1, adrs, key) \o sent
+    IN  BE(Nat0(Len(dir) + d.dirD), W_LEN) \o dir \o RawPayloads(d.ents, 1, key) \o d.trailing
+NominalEntry(c) == [c |-> c, lenD |-> 0, adrD |-> 0, totD |-> 0, declared |-> c.alen, dlenD |-> 0, dup |-> FALSE, tlenD |-> 0,
+                    emac |-> "valid", pmac |-> "valid"]
+EntryDeviations(e) == (IF e.lenD # 0 THEN 1 ELSE 0) + (IF e.adrD # 0 THEN 1 ELSE 0) + (IF e.totD # 0 THEN 1 ELSE 0)
+                      + (IF e.declared # e.c.alen THEN 1 ELSE 0) + (IF e.dlenD # 0 THEN 1 ELSE 0) + (IF e.dup THEN 1 ELSE 0)
+                      + (IF e.tlenD # 0 THEN 1 ELSE 0) + (IF e.emac # "valid" THEN 1 ELSE 0) + (IF e.pmac # "valid" THEN 1 ELSE 0)
+RECURSIVE SumDev(_, _)
+SumDev(ents, i) == IF i > Len(ents) THEN 0 ELSE EntryDeviations(ents[i]) + SumDev(ents, i + 1)
+Deviations(d) == SumDev(d.ents, 1) + (IF d.dirD # 0 THEN 1 ELSE 0) + (IF d.sentinel # "present" THEN 1 ELSE 0)
+                 + (IF d.trailing # <<>> THEN 1 ELSE 0) + (IF d.swap THEN 1 ELSE 0)
 
 \* ---------------------------------------------------------------- reader
 \* a read of n cells at position p (0-based) of cs
